@@ -34,3 +34,23 @@ add("C06", "runtime monitoring: planted fault x syntactic position matrix; X-nev
     "Exploration (fault enumeration over positions): 79 fault variants x 45 positions x 3 layouts with tripwires after the fault (tagged prints, input prompts with stdin available, loops that only a later break ends); first diagnostic category and line, stdout prefix, exit 70, nothing-afterwards and bounded termination are checked on each execution.",
     "Trusted: refborno's fault typing and lines; the tolerant diagnostic-category patterns in harness/match.go; vhook event order.",
     "DESIGN.md §4 C06")
+add("C11", "runtime monitoring: pure-list-model differential after every step of all short operation histories over aliased arrays, every written value unique; history of every array ever returned kept live and re-observed",
+    "Exploration: every history of <=2 steps (and every 2nd of <=3; thorough: all of <=4) over 28 non-faulting and 19 faulting step kinds on three arrays with shared ancestry, random histories of up to 34 steps; after each step every live array, its length and every previously returned array are printed and compared with refborno.",
+    "Trusted: refborno's list model with reference identity.",
+    "DESIGN.md §4 C11")
+add("C12", "runtime monitoring: pure-map-model differential after every step of all short operation histories over aliased objects; key/value listing permutation-and-consistency monitor; each program executed 3 times (hash iteration order as schedule)",
+    "Exploration: every history of <=2 steps (every 3rd of <=3; thorough: all of <=4) over 23 non-faulting and 14 faulting step kinds on three objects with shared ancestry, random histories; each listing performed twice in a row; listings may come in any order but must be permutations of the current entries and agree position-wise for an unmodified object.",
+    "Trusted: refborno's map model with reference identity; the tolerant container reader in harness/match.go.",
+    "DESIGN.md §4 C12")
+add("C14", "runtime monitoring: probe-tag order model — every operand/argument/element/index is a side-effecting probe call with a unique tag; printed tag sequence compared with refborno; truthiness table x contexts",
+    "Exploration: 45 expression forms at depth 1, every form x compatible sub-form at depth 2, seeded random nests at depth 3; 29 values x 11 truthiness contexts; hand-written store-order cases; in-process and through the binary.",
+    "Trusted: refborno's evaluation order (left to right, callee before arguments, value before store, short-circuit).",
+    "DESIGN.md §4 C14")
+add("C15", "runtime monitoring: numeral read-back and shortest-digits monitor, NFC / canonical-equivalence monitor on stdout bytes, line-triple monitor (দেখাও v = \"\"+v = v+\"\")",
+    "Exploration: boundary and random doubles by bit pattern printed as triples, bitwise/built-in numeric results, 32 strings x 12 placements including every Bangla code point with a canonical decomposition, nested containers; every numeral must read back exactly, be shortest, integers below 10^6 plain; output valid UTF-8 in NFC; containers show all elements/properties.",
+    "Trusted: strconv read-back (cross-checked by C10), golang.org/x/text/unicode/norm.",
+    "DESIGN.md §4 C15")
+add("C17", "runtime monitoring: exact / ulp-bounded math oracle on printed results; built-in x arity x argument-kind matrix with fault monitors; pow-vs-operator byte equality; min/max permutation model; causal clock bracket",
+    "Exploration: all 17 built-ins x 0-2 arguments x 12 kinds (+ sampled 3-4), numeric batches over boundary and random doubles (abs/sqrt/round exact via big arithmetic, trig within 2 ulp), ঘাত vs ** side by side, min/max over arrangements in list and array forms, ক্লক() bracketed around the child process.",
+    "Trusted: Go math package as 'the platform's math library' for sin/cos/tan/pow; math/big for exact checks.",
+    "DESIGN.md §4 C17")
